@@ -184,3 +184,65 @@ def discr_switches(body):
         out.append({"bb": bb, "place": d["place"], "adt": d["enum"]["adt"], "arms": arms,
                     "otherwise": t["otherwise"], "variants": [v[1] for v in d["enum"]["variants"]]})
     return out
+
+
+OTHER = "\x00<other>"
+
+
+def string_cases(body, compares=None, extra_cells=()):
+    """Abstract interpretation over the finite partition of the compared string induced by the
+    literals it is compared with: for every cell (each literal, and OTHER for 'none of them')
+    the set of blocks control can visit.  Switches that do not test a literal comparison fork.
+    Returns ({cell: visited blocks}, [cells])."""
+    compares = compares if compares is not None else str_compares(body)
+    by_bb = {c["bb"]: c for c in compares}
+    cells = []
+    for c in compares:
+        if c["lit"] not in cells:
+            cells.append(c["lit"])
+    for x in extra_cells:
+        if x not in cells:
+            cells.append(x)
+    cells.append(OTHER)
+    succs = body.succs()
+    out = {}
+    for cell in cells:
+        seen = set()
+        st = [0]
+        while st:
+            bb = st.pop()
+            if bb in seen:
+                continue
+            seen.add(bb)
+            c = by_bb.get(bb)
+            if c is not None:
+                if cell == OTHER:
+                    hit = False
+                elif c["ci"]:
+                    hit = c["lit"].lower() == cell.lower()
+                else:
+                    hit = c["lit"] == cell
+                st.append(c["true"] if hit else c["false"])
+                continue
+            for s in succs[bb]:
+                st.append(s)
+        out[cell] = seen
+    return out, cells
+
+
+def field_writes(body, blocks, base_locals):
+    """Names of fields of `base_locals` (e.g. the `self` reference) assigned in `blocks`."""
+    out = []
+    for bb in sorted(blocks):
+        blk = body.blocks[bb]
+        for s in blk["s"]:
+            if s["k"] == "assign" and s["place"]["l"] in base_locals:
+                fs = [e["n"] for e in s["place"]["p"] if isinstance(e, dict) and "f" in e and e["n"] is not None]
+                if fs:
+                    out.append((fs[0], bb))
+        t = blk["t"]
+        if t["k"] == "call" and t["dest"]["l"] in base_locals:
+            fs = [e["n"] for e in t["dest"]["p"] if isinstance(e, dict) and "f" in e and e["n"] is not None]
+            if fs:
+                out.append((fs[0], bb))
+    return out
